@@ -17,7 +17,9 @@ CHECKS = {
              'enumerate every combination of legal choices and injected rule violations at every site (~2700 instances). TLC '
              'authors each instance in several orders / file splits / file orders (~1.4*10^5 states), checks OrderFree, '
              'CycleAgreement (operational in-progress-set resolution = declarative acyclicity) and DenoteClosed, and every finished '
-             'model is replayed: specs_to_ir must return an Api iff WellFormed, and must fail only with InvalidSpec.',
+             'model is replayed: specs_to_ir must return an Api iff WellFormed, and must fail only with InvalidSpec. StoneLitMC adds the '
+             'value-against-type rules: 19 field types x 30 example expressions (ExFits), 15 route-attribute declarations x 14 values '
+             '(AttrFits), 6 doc-reference tags x 776 payload shapes x 4 sites (RefFits), each compiled: accepted iff the rule accepts.',
         ref='3.3, 4 (C01), Appendix A'),
     'C02': dict(
         technique='TLA+ operator StoneSem!Denote evaluated by TLC on every accepted model of StoneSemMC; compared field by field with the projected stone.ir.Api',
@@ -34,7 +36,8 @@ CHECKS = {
              'header; every single token edit (thorough: 20000 random 2-3 edit behaviours) of four seed specs covering examples, '
              'patches, annotations, routes with attrs and versions, imports, enumerated subtypes. Each text is tokenised by the real '
              'Lexer (skeleton and recorded errors must equal StoneLex!OpLex) and compiled: the outcome must be an Api or InvalidSpec '
-             'with a non-empty message and an input path; sampled failing texts go through python -m stone.cli (exit 1, path:line: error:).',
+             'with a non-empty message and an input path; sampled failing texts go through python -m stone.cli (exit 1, path:line: error:). '
+             'Plus the StoneLitMC cases (example expressions, route attribute values; thorough: doc references): a refusal must be a spec error.',
         ref='3.1, 3.2, 4 (C03)',
         note=TRUST + ' The specification contributes the input enumeration and the lexer crash conditions; which of the two outcomes a text gets is C01.'),
     'C04': dict(
